@@ -189,7 +189,7 @@ impl<VS: HSet> HProvider<VS> {
         let seed = if let Strat::Random(s) = strat { s } else { 0 };
         {
             // deep registries: every snapshot lists hundreds of packages; a runaway run must stay small
-            let budget = if reg.entries.len() > 100 { 8_000 } else { 10_000 };
+            let budget = if reg.entries.len() > 100 { 40_000 } else { 10_000 };
             HProvider { reg, dep_maps, strat, fault, log, calls: Cell::new(0), rng: RefCell::new(Rng::new(seed)), budget }
         }
     }
@@ -241,7 +241,10 @@ impl<VS: HSet> DependencyProvider for HProvider<VS> {
         let r = self.tick().map(|k| {
             if self.fault == Fault::OutOfSet(k) {
                 // a version outside the offered set, if there is one in the universe
-                return VS::universe().into_iter().rev().find(|v| !set.contains(v)).or(Some(99));
+                if let Some(v) = VS::universe().into_iter().rev().chain(std::iter::once(99)).find(|v| !set.contains(v)) {
+                    return Some(v);
+                }
+                // the offered set contains every version: there is nothing outside it to answer
             }
             let m = self.matching(p, set);
             match self.strat {
@@ -338,11 +341,19 @@ pub fn start_watchdog(limit_s: u64, hang_file: Option<String>) {
                     let _ = std::fs::write(f, format!("{}\n", line));
                 }
                 println!("hang:resolve did not return within {} s", limit_s);
-                eprintln!("ORACLE-FAIL {} :: resolve did not return within {} s (no provider call pending: the call budget was not reached)", line, limit_s);
+                eprintln!("ORACLE-FAIL {} :: resolve did not return within {} s", line, limit_s);
                 std::process::exit(3);
             }
         }
     });
+}
+
+/// run a call of the real code under the watchdog (`line` = what to report if it does not return)
+pub fn watched<T>(line: String, f: impl FnOnce() -> T) -> T {
+    *IN_FLIGHT.lock().unwrap() = Some((std::time::Instant::now(), line));
+    let r = f();
+    *IN_FLIGHT.lock().unwrap() = None;
+    r
 }
 
 pub fn run_resolve<VS: HSet>(reg: &Registry<VS>, root: &str, rv: u32, strat: &Strat, fault: &Fault) -> Run<VS> {
@@ -1128,11 +1139,15 @@ pub fn random_strat(rng: &mut Rng) -> Strat {
 }
 
 pub fn eval_to_case<VS: HSet>(e: SolveEval<VS>, prop: &str) -> Case {
-    let mine: Vec<String> = e.failures.iter().filter(|(p, _)| *p == prop).map(|(_, w)| w.clone()).collect();
+    // C17's solver clause ("the guarantees C01–C05 hold with a custom set exactly as with Range") is
+    // decided by the oracles of C01..C05 on the runs over the custom set
+    let serves = |p: &str| p == prop || (prop == "C17" && matches!(p, "C01" | "C02" | "C03" | "C04" | "C05"));
+    let mine: Vec<String> = e.failures.iter().filter(|(p, _)| serves(p)).map(|(p, w)| if *p == prop { w.clone() } else { format!("[{}] {}", p, w) }).collect();
+    let skipped = (prop == "C02" || prop == "C06") && e.tags.contains(&"too_large_for_brute_force");
     Case {
         req: e.req,
         imp: e.imp,
-        nontrivial: e.conflicts > 0 || e.tags.contains(&"run_backtracked"),
+        nontrivial: !skipped && (e.conflicts > 0 || e.tags.contains(&"run_backtracked")),
         oracle_fail: mine.first().cloned(),
         tags: e.tags,
     }
